@@ -542,6 +542,12 @@ func genProgramAvoiding(t *rapid.T) (p Program, excluded int) {
 				for _, c := range cs {
 					trial := append(append([]Op{}, cur...), c)
 					bad := false
+					if c.K == "mkdirall" && strings.Contains(c.P, "/") && vf.Known("C15:obs:mkdirall(x)/plain") {
+						// MkdirAll that may have to create two levels is one store transaction per level (listed finding,
+						// identified exactly in the observers leg): its intermediate state shows through ANY concurrent
+						// operation on the parent, so it is left out here as a whole
+						bad = true
+					}
 					for _, other := range p.Threads {
 						for j := range other {
 							if knownPairSig(trial, len(trial)-1, other, j) != "" {
